@@ -83,6 +83,9 @@ class C19(core.Check):
             (False, R, [(8101, 0, [ok(b"until close", 2), ok(b"x")])], 2),
             (False, R, [(8101, 0, [red(0, 8101, b"/r0"), red(0, 8101, b"/r1"), ok(b"end", 1, 2, (5, 9)), ok(b"b", 0, 3), ok(b"c")])], 0),
             (False, R, [(8101, 0, [red(1, 8101, b"/r0"), ok(b"sec")])], 0),                                    # http -> https on the same port
+            # after a refused (https -> http) or unusable (no Location) redirect the queue goes on; later answers, also 2xx WITH a Location header, are plain answers
+            (True, R, [(8101, 1, [red(0, 8102, b"/r0"), ok(b"two"), (201, (1, 8101, b"/made"), b"three", 0, 0, [], False)]), (8102, 0, [ok(b"ONE")])], 0),
+            (False, R, [(8101, 0, [(302, None, b"", 0, 0, [], False), (201, (0, 8101, b"/made"), b"two", 1, 0, [], False), ok(b"three")])], 1),
             # a redirected request with its own query args; the Location has other args: the hop must go to the Location exactly
             (False, [(b"GET", b"/q0", b"", [(b"token", b"abc"), (b"page", b"2")]), (b"GET", b"/q1", b"", [(b"name", b"x y")])],
              [(8101, 0, [(307, (0, 8101, b"/r0?name=fame"), b"", 0, 0, [], False), ok(b"landed"), ok(b"two")])], 0),
@@ -164,14 +167,16 @@ class C19(core.Check):
                             for _ in range(rng.choice([1, 1, 2])):
                                 la[rng.choice(keys + ["loc", "z"])] = qtext()
                             target += b"?" + "&".join(quote_plus(a) + "=" + quote_plus(b) for a, b in la.items()).encode("ascii")
-                        loc = (int(tsec), tp, target)
+                        loc = (int(tsec), tp, target) if rng.random() > 0.06 else None      # rarely a 3xx WITHOUT Location: cannot be followed
                         rcount[0] += 1
                     elif rng.random() < pnobody:
                         status = rng.choice([204, 304, 304, 102])
                     else:
                         status = rng.choice([200, 200, 200, 201, 404, 500])
-                        if rng.random() < 0.05:
-                            loc = (int(secure), p, b"/ignored")
+                        if rng.random() < 0.15:      # a Location header on an answer that is not a redirect (201 Created ...): must be ignored
+                            tp = rng.choice(ports)
+                            loc = (int(rng.choice([secure, tls.get(tp, secure)])), tp, b"/ignored%d" % rcount[0])
+                            rcount[0] += 1
                     fr = 3 if rng.random() < ptrunc else rng.choice([0, 0, 0, 1, 1, 2] if rng.random() < 0.5 else [0, 0, 0, 1])
                     delay = rng.choice([0, 0, 0, 1, 2, 5])
                     cuts = sorted(rng.randrange(1, 120) for _ in range(rng.choice([0, 0, 1, 2, 4])))
@@ -229,6 +234,13 @@ class C19(core.Check):
         return groups
 
     def oracle(self, case, obs):
+        try:
+            return self._oracle(case, obs)
+        except (IndexError, KeyError, TypeError, ValueError, AttributeError) as ex:
+            # whatever the client did must be judged, never crash the check: an observation the walk cannot account for IS a violation
+            return ["observation-not-accountable:" + type(ex).__name__]
+
+    def _oracle(self, case, obs):
         secure, reqs, servers, late = case
         outcome, ents, wire, waited, left, (_, overlap, insecure_bytes, served, raised) = obs
         bad = []
@@ -237,6 +249,10 @@ class C19(core.Check):
         if secure and (insecure_bytes or any(not w[1] for w in wire)):
             bad.append("https-to-http-not-refused")
         groups = self._walk(case, obs)
+        # only requests that were queued, or hops of a followed 3xx, may appear on the wire
+        accounted = {i for idx in groups.values() for i in idx}
+        if any(i not in accounted for i in range(len(wire))):
+            bad.append("unqueued-request-on-wire")
         # transmitted in queue order, as queued
         order = [k for k, _ in sorted(groups.items(), key=lambda kv: kv[1][0])]
         if order != sorted(order):
@@ -273,7 +289,7 @@ class C19(core.Check):
             chain = [served[i] for i in idx]
             exp_hist = [c[0] for c in chain[:-1]]
             final = chain[-1]
-            followed = final[0] in REDIRECTS and final[1] is not None
+            followed = final[0] in REDIRECTS      # a 3xx ending the chain: its hop never reached a server, or it could not be followed at all (no Location)
             if any(not (c[0] in REDIRECTS and c[1] is not None) for c in chain[:-1]):
                 bad.append("hop-after-non-redirect")
             # every hop must have gone exactly where the previous response pointed: port, scheme, path AND query arguments
@@ -303,7 +319,7 @@ class C19(core.Check):
                     bad.append("response-differs")
                 if [h[0] for h in hist] != exp_hist:
                     bad.append("redirect-history")
-                if hist and (path, rqargs) != _tp(chain[-2][1][2]):
+                if hist and len(chain) >= 2 and (path, rqargs) != _tp(chain[-2][1][2]):
                     bad.append("entry-request-not-the-last-location")
         if outcome == "running":
             if len(ents) != len(reqs) or waited or left:
